@@ -3,6 +3,8 @@ NOTES = ("All checks are property-based tests (pgregory.net/rapid v1.3.0 generat
          "github.com/oxia-db/oxia with /repo so every run rebuilds from /repo's working tree. See DESIGN.md.")
 
 ENGINES = [
+    {"name": "kvx", "path": "harness/kvx", "serves_properties": ["C06", "C07", "C11", "C12", "C13", "C16", "C17"],
+     "kind_free_text": "real kv.DB / Pebble KV driven by rapid generators against the sequential reference model in harness/model"},
     {"name": "walx", "path": "harness/walx", "serves_properties": ["C09", "C10"],
      "kind_free_text": "rapid state machine + crash/corruption image generator over the real WAL against a list model"},
 ]
@@ -34,5 +36,27 @@ META = {
         "level_note": "Durability model: msync makes the file content durable (hook reports each msync); bytes not "
                       "rewritten keep their value; Pebble/kernel trusted. v1 format: no-panic only where the format "
                       "cannot detect damage.",
+    },
+    "C11": {
+        "engine": "kvx", "technique": "property-based testing: algebraic laws + model-based differential against a sorted reference",
+        "design_ref": "DESIGN.md 4.2, 5 C11",
+        "level_text": "Comparator laws and Pebble's comparer contract over hundreds of thousands of generated key pairs/triples, plus "
+                      "real multi-block Pebble data sets read back through every read path and compared with a sorted reference.",
+        "level_note": "Compaction timing is Pebble's; block size/flush are the production settings of kv_pebble.go.",
+    },
+    "C12": {
+        "engine": "kvx", "technique": "model-based property testing (rapid state machine vs sequential reference model)",
+        "design_ref": "DESIGN.md 4.2, 5 C12",
+        "level_text": "Thousands of generated request histories applied to the real database and checked response by response and "
+                      "read by read against an executable sequential specification.",
+        "level_note": "DB level (the callback chain leader and follower share); leader-level dispatch is covered by the leaderx checks.",
+    },
+    "C13": {
+        "engine": "kvx", "technique": "property-based testing with structured hostile-input generators + differential between two replicas",
+        "design_ref": "DESIGN.md 4.2, 5 C13",
+        "level_text": "Generated requests covering everything a client can encode are applied to two real databases; any "
+                      "infrastructure error, missing status or divergence is a violation. Four listed findings (invalid sequence "
+                      "puts) are re-confirmed by scripted replay each run and excluded from the generators.",
+        "level_note": "DB-level application (the path both leader replay and follower apply use).",
     },
 }
